@@ -110,23 +110,27 @@ func init() {
 				args = append(args, "--debug")
 			}
 			var out []byte
+			success := false
 			if cb(k, "ofile") {
 				// the output file already exists and is longer than the result
 				path := c.writeTemp(fmt.Sprintf("o%d.mid", nextID()), strings.Repeat("stale bytes of an earlier, longer file ", 3000))
 				r := c.crd(append(args, "-o", path), d.YAML())
 				if r.Exit == 0 && !r.TimedOut && !r.Panic {
 					out, _ = os.ReadFile(path)
+					success = true
 				}
 				os.Remove(path)
 			} else {
 				r := c.crd(args, d.YAML())
 				if !r.TimedOut && !r.Panic {
 					out = r.Stdout
+					success = r.Exit == 0
 				}
 			}
-			if len(out) == 0 {
+			if len(out) == 0 && !success {
 				return []Rec{{"kind": "nofile"}}
 			}
+			// (a run that reports success and leaves nothing is judged like any other output: zero bytes are not a file)
 			if cb(k, "huge") {
 				// too many bytes to walk one TLC state per byte: the strict reader (bound to SMF.tla by every other record) summarises it
 				f := smf.Parse(out)
